@@ -3,6 +3,7 @@ package main
 import (
 	"fmt"
 	"go/token"
+	"go/types"
 	"strings"
 
 	"golang.org/x/tools/go/ssa"
@@ -341,6 +342,7 @@ func runC02(c *Check) {
 	c.Doc("C02-R9", "EO: in the sync loop an event's hash is marked seen only after the sync attempt of the same iteration returned without error (a seen mark is persisted with the cache and makes every re-delivery a duplicate: set before a failed attempt it leaves the block unapplied for good).")
 	ruleSeenOnlyAfterSyncAttempt(c, p, steps)
 	ruleMarksAfterItems(c, p, "C02-R10")
+	ruleHandOffNotUnderDeadline(c, p, "C02-R11")
 }
 
 // ruleP2PCursor (C02-R8): the polling loops over the P2P header/data stores keep a cursor (the
@@ -483,4 +485,60 @@ func ruleSeenOnlyAfterSyncAttempt(c *Check, p *Prog, steps []*ssa.Function) {
 			g.PrecedeSince(nodeSet(sel), nodeSet(syncOK), func(n *Node) bool { return n == mk }))
 	}
 	c.MinInstances(rule, 2)
+}
+
+// ruleHandOffNotUnderDeadline (C02-R11 / C09-R9): what a scanning loop found is handed to the sync
+// loop by a send that also waits for ctx.Done — a guard written for shutdown. When that context
+// carries a deadline (the fetch timeout moved up to cover the whole DA height) a hand-off that
+// has to wait for room is abandoned when the deadline passes, the remaining blobs of the height
+// are dropped with it, the step returns nil and the scan moves on: blocks the node has fetched
+// are never applied. The context that guards a hand-off is the loop's own, with no deadline.
+func ruleHandOffNotUnderDeadline(c *Check, p *Prog, rule string) {
+	c.Doc(rule, "BO: every send on the sync loop's event channels waits, besides the channel, only for a context without a deadline (the loop's own context, not one derived with WithTimeout / WithDeadline): a slow consumer delays the hand-off, it never cancels it.")
+	n := 0
+	for _, l := range []string{"RetrieveLoop", "HeaderStoreRetrieveLoop", "DataStoreRetrieveLoop"} {
+		root := p.MustFunc(mgrM(l))
+		g := BuildECFG(p, root, ExpandOpts{MaxDepth: 5})
+		c.NoteGraph(g)
+		for _, nd := range g.Nodes {
+			sel, ok := nd.In.(*ssa.Select)
+			if !ok || !g.Live()[nd] || nd.Kind != NInstr {
+				continue
+			}
+			sends := false
+			var doneOf *Term
+			for _, st := range sel.States {
+				switch st.Dir {
+				case types.SendOnly:
+					ch := TermOf(st.Chan, nd.Ctx)
+					if ch.Op == "field" && (ch.Name == "headerInCh" || ch.Name == "dataInCh") {
+						sends = true
+					}
+				case types.RecvOnly:
+					t := TermOf(st.Chan, nd.Ctx)
+					if t.Op == "invoke" && t.Name == "(context.Context).Done" && len(t.Args) > 0 {
+						doneOf = t.Args[0]
+					}
+				}
+			}
+			if !sends {
+				continue
+			}
+			n++
+			inst := fmt.Sprintf("%s ⟂ hand-off in %s waits for no deadline", l, fnShort(nd.Ctx.Fn))
+			switch {
+			case doneOf == nil:
+				c.OK(rule, inst, fnName(nd.Ctx.Fn), p.InstrPos(nd.In), "the send waits for the channel only", true)
+			case p.DeepContains(doneOf, func(t *Term) bool {
+				return t.IsCall("context.WithTimeout") || t.IsCall("context.WithDeadline") || t.IsCall("context.WithTimeoutCause") || t.IsCall("context.WithDeadlineCause")
+			}, 1):
+				c.Bad(rule, inst, fnName(nd.Ctx.Fn), p.InstrPos(nd.In), "the hand-off to the sync loop is abandoned when a deadline passes ("+trunc(doneOf.String(), 90)+"): with a busy sync loop the items fetched for this height are dropped, the step still returns nil and the scan moves past the height — the blocks are never applied from what was fetched", nil)
+			default:
+				c.OK(rule, inst, fnName(nd.Ctx.Fn), p.InstrPos(nd.In), "the only other thing the send waits for is the loop's context ("+trunc(doneOf.String(), 50)+"), which has no deadline", true)
+			}
+		}
+	}
+	if n < 3 {
+		c.Unk(rule, "anchor-count", "", "", fmt.Sprintf("anchor lost: only %d hand-offs to the sync loop found in the scanning loops", n))
+	}
 }
